@@ -77,8 +77,8 @@ def _include_bytes_scenarios(args):
         os.makedirs(os.path.join(root, d), exist_ok=True)
     contents = {'empty': b'', 'one': b'\x00', 'text': b'hello\nworld\r\n# not a comment\n', 'bin': bytes(range(256)) * 3,
                 'odd': bytes(rng.randrange(256) for _ in range(1021))}
-    places = {'beside': ('proj', 'blob.bin', []), 'subdir': ('proj/sub', 'sub/blob.bin', []),
-              'incdir': ('inc', 'blob.bin', ['inc']), 'incdir-sub': ('inc', 'blob.bin', ['inc'])}
+    places = {'beside': ('proj', 'Blob.BIN', []), 'subdir': ('proj/sub', 'sub/Blob.BIN', []),
+              'incdir': ('inc', 'Blob.BIN', ['inc']), 'incdir-sub': ('inc', 'Blob.BIN', ['inc'])}
     python = sys.executable
     for pname, (fdir, written, incs) in places.items():
         for cname, data in contents.items():
@@ -88,10 +88,13 @@ def _include_bytes_scenarios(args):
                     p = os.path.join(root, d, fn)
                     if os.path.isfile(p):
                         os.unlink(p)
-            with open(os.path.join(root, fdir, 'blob.bin'), 'wb') as f:
+            with open(os.path.join(root, fdir, 'Blob.BIN'), 'wb') as f:
                 f.write(data)
+            # a twin whose name differs only in case, beside it (file names are case-sensitive here)
+            with open(os.path.join(root, fdir, 'blob.bin'), 'wb') as f:
+                f.write(b'lower-case twin' + data)
             # decoy with the same name and other content in a directory that is NOT on the search path
-            with open(os.path.join(root, 'elsewhere', 'blob.bin'), 'wb') as f:
+            with open(os.path.join(root, 'elsewhere', 'Blob.BIN'), 'wb') as f:
                 f.write(b'DECOY' + data)
             src = 'db 1\ninclude_bytes %s\ndb 2\n' % written
             main = os.path.join(root, 'proj', 'main.asm')
@@ -116,10 +119,10 @@ def _include_bytes_scenarios(args):
         os.makedirs(os.path.join(root, d), exist_ok=True)
     blobs = {'proj/a': contents['text'], 'proj/b': contents['odd'], 'proj/b/c': b'\x07' * 5}
     for d, data in blobs.items():
-        with open(os.path.join(root, d, 'blob.bin'), 'wb') as f:
+        with open(os.path.join(root, d, 'Blob.BIN'), 'wb') as f:
             f.write(data)
         with open(os.path.join(root, d, 'part.asm'), 'w') as f:
-            f.write('include_bytes blob.bin\n' + ('include c/part.asm\ninclude_bytes blob.bin\n' if d == 'proj/b' else ''))
+            f.write('include_bytes Blob.BIN\n' + ('include c/part.asm\ninclude_bytes Blob.BIN\n' if d == 'proj/b' else ''))
     main = os.path.join(root, 'proj', 'nested.asm')
     with open(main, 'w') as f:
         f.write('db 1\ninclude a/part.asm\ninclude b/part.asm\ninclude a/part.asm\ndb 2\n')
@@ -129,7 +132,7 @@ def _include_bytes_scenarios(args):
             os.chdir(os.path.join(root, cwd))
             rec = impl.assemble_recorded(main, compress=False, include_dirs=[os.path.join(root, i) for i in incs])
             got = rec['out'] if rec['status'] == 'ok' else None
-            out.append(({'where': 'nested' + ('+incdir' if incs else ''), 'content': 'per-directory', 'cwd': cwd, 'via': 'api', 'written': 'blob.bin'},
+            out.append(({'where': 'nested' + ('+incdir' if incs else ''), 'content': 'per-directory', 'cwd': cwd, 'via': 'api', 'written': 'Blob.BIN'},
                         want[1:-1], got, rec['status'] if rec['status'] != 'ok' else 'ok'))
         os.chdir(root)
     # the CLI in a subprocess for one content per place
@@ -140,7 +143,7 @@ def _include_bytes_scenarios(args):
                 p = os.path.join(root, d, fn)
                 if os.path.isfile(p):
                     os.unlink(p)
-        with open(os.path.join(root, fdir, 'blob.bin'), 'wb') as f:
+        with open(os.path.join(root, fdir, 'Blob.BIN'), 'wb') as f:
             f.write(data)
         main = os.path.join(root, 'proj', 'main.asm')
         with open(main, 'w') as f:
@@ -509,14 +512,20 @@ def _include_batch(args):
     a = impl.asm()
     out = []
     root = os.path.join(base, 'inc_%d_%d' % (seed, os.getpid()))
-    for n, (sc, files, expected) in enumerate(scenarios):
+    for n, (sc, files, expected, links) in enumerate(scenarios):
         if os.path.exists(root):
             shutil.rmtree(root)
         for d in ('proj/sub', 'proj/sub/sub', 'inc1/sub', 'inc2/sub', 'other', 'inc1/sub/sub', 'inc2/sub/sub', 'proj/sub/sub/sub'):
             os.makedirs(os.path.join(root, d), exist_ok=True)
         for d, name, lines in files:
             os.makedirs(os.path.join(root, d), exist_ok=True)
-            with open(os.path.join(root, d, name), 'w') as f:
+            target = os.path.join(root, d, name)
+            if [d, name] in links:
+                # the content lives in store/ under a private name; the file the program names is a symbolic link to it
+                os.makedirs(os.path.join(root, 'store'), exist_ok=True)
+                target = os.path.join(root, 'store', 'real_' + name)
+                os.symlink(os.path.relpath(target, os.path.join(root, d)), os.path.join(root, d, name))
+            with open(target, 'w') as f:
                 f.write('\n'.join(lines) + '\n')
         cwd = os.path.realpath(os.path.join(root, sc['cwd']))
         os.chdir(cwd)
@@ -540,7 +549,8 @@ def _include_batch(args):
             lines = a.read_lines(main, include_dirs=incs)
             prov = []
             for ln in lines:
-                fp = os.path.relpath(os.path.realpath(ln.file), os.path.realpath(root))
+                # (lexical: a symbolic link counts as the file it was named as)
+                fp = os.path.relpath(os.path.normpath(os.path.join(cwd, ln.file)), os.path.realpath(root))
                 d, name = os.path.split(fp)
                 prov.append([d or '.', name, ln.number, ln.contents])
         except Exception as e:
@@ -586,7 +596,7 @@ def c14(run, scratch):
     scs = []
     for v in r.printed():
         if v and v[0] == 'SC':
-            scs.append((v[1], [list(x) for x in v[2]['set']], [list(e) for e in v[3]['set']]))
+            scs.append((v[1], [list(x) for x in v[2]['set']], [list(e) for e in v[3]['set']], [list(x) for x in v[4]['set']]))
     if len(scs) != r.distinct - 1:
         raise tlc.TlcFailure('IncludeSpace: parsed %d of %d scenarios' % (len(scs), r.distinct - 1))
     rng = random.Random(run.seed)
@@ -606,13 +616,15 @@ def c14(run, scratch):
                     run.violation(clause, {'depth': sc['depth'], 'decoy': sc['decoy'], 'cwd_is_proj': sc['cwd'] == 'proj'}, {'scenario': sc, 'what': what})
                 # cwd independence across scenarios that differ only in cwd / rel / decoy-free
                 if sc['decoy'] == 'none':
-                    key = (sc['depth'], sc['pos'], sc['l1'], sc['l2'], sc['l3'], sc['quoted'], sc['again'])
+                    key = (sc['depth'], sc['pos'], sc['l1'], sc['l2'], sc['l3'], sc['quoted'], sc['again'], sc['link'])
                     by_out.setdefault(key, set()).add(res['out'])
     for key, outs in by_out.items():
         if len(outs) > 1:
             run.violation('CwdIndependent', {'depth': key[0]}, {'tree': key, 'distinct_outputs': sorted(str(o) for o in outs)})
-    if nref < 50:
-        raise tlc.TlcFailure('non-vacuity: only %d scenarios with an unresolvable include' % nref)
+    nlink = sum(1 for sc_ in scs if sc_[3])
+    if nref < 50 or nlink < 50:
+        raise tlc.TlcFailure('non-vacuity: only %d scenarios with an unresolvable include, %d with a symbolic link' % (nref, nlink))
+    run.coverage['symbolic_link_scenarios'] = nlink
     run.coverage['unresolvable_include_scenarios'] = nref
     run.coverage['traces_validated_against_impl'] = total
     run.coverage['evaluations'] = total
@@ -621,11 +633,11 @@ def c14(run, scratch):
     run.coverage['cli_subprocess_runs'] = ncli
     run.coverage['exhaustive'] = run.tier == 'thorough'
     run.coverage['rule'] = ('TLC enumerates the include scenarios (depth 1-3, include line first/middle/last, each included file beside its includer / in sub/ / in -i dir inc1 / inc2, '
-                            'same-named decoy in the working directory or in an unsearched directory, the deepest file present or existing only as such a decoy (then the include must be refused), 5 working directories, absolute or relative main path, quoted or bare file name) '
+                            'same-named decoy in the working directory or in an unsearched directory, the deepest file present or existing only as such a decoy (then the include must be refused), a.asm or main.asm as a symbolic link into a directory holding same-named decoys, 5 working directories, absolute or relative main path, quoted or bare file name) '
                             'and AsmInclude!Flatten gives the acceptable flattenings with provenance; the harness materialises each tree, compares read_lines\' (file, line, text) '
                             'sequence with them, assembles the tree and the spliced text (bytes, labels, constants must agree) and runs the CLI in a subprocess for a sample; '
                             'the quick tier draws 5,000 scenarios (seeded), the thorough tier runs all')
-    for sc, files, exp in scs[:2]:
+    for sc, files, exp, _links in scs[:2]:
         run.sample({'scenario': sc, 'files': files, 'acceptable_flattenings': len(exp)})
     run.coverage['trusted_base'] = ['TLC', 'AsmInclude.tla as the reading of the documented include search', 'the harness materialises file trees and maps paths back to (dir, name)']
     run.assumptions += ['when several directories hold a file of the requested name among the includer\'s directory and the -i directories, any of them is acceptable (no documented priority)',
